@@ -229,7 +229,7 @@ def check_store_fee_addonly(ctx, model, crate):
         return
     ctx.fn_seen.add(p)
     found = False
-    for q in [p] + [x for x in model.fnsrc if x.startswith(p + "::{closure")]:
+    for q in [p] + model.closures_of(p):
         v = model.view(q)
         for b, t in v.iter_calls():
             n = mname(t)
